@@ -130,8 +130,14 @@ def _r1(ctx):
         if "hi" in g and g.get("hi") and hv[g["hi"]] != ("attr", r, "temp_max"):
             probs.append(f"upper bound is {show(hv[g['hi']])}")
         e = hv[g["e"]]
-        calls = [x for x in walk(e) if isinstance(x, tuple) and len(x) == 5 and x[0] == "meth" and x[2] == "rateexpr"]
-        if not calls or any(x[1] != r for x in calls):
+        # every alternative (with / without grains) must BE reac.rateexpr(..) of the same reaction: not a wrapper that may
+        # substitute another text, not a copy of another coefficient
+        def leaves(x):
+            if isinstance(x, tuple) and x and x[0] in ("phi", "ifexp"):
+                return leaves(x[2]) + leaves(x[3])
+            return [x]
+        lv = leaves(simp(e))
+        if not lv or any(not (isinstance(x, tuple) and len(x) == 5 and x[0] == "meth" and x[2] == "rateexpr" and x[1] == r) for x in lv):
             probs.append(f"rate expression is {show(e)[:80]}, not rateexpr() of the same reaction")
         ctx.check(not probs, "R1", key, (FILE, rets[0].line),
                   f"{names[(has_lo, has_hi)]}: {lw.text!r}" if not probs else "; ".join(probs),
